@@ -518,6 +518,9 @@ func c16Exec(scn string, gsGiven bool, lines []string, rec []c16Step, obs0 strin
 				}
 			case "!release":
 				c.mu.Lock()
+				for t := range c.done {
+					c.inGate.Store(t, false) // released: no longer "blocked in the gate"
+				}
 				close(c.gate)
 				c.gate = make(chan struct{})
 				c.mu.Unlock()
@@ -526,6 +529,10 @@ func c16Exec(scn string, gsGiven bool, lines []string, rec []c16Step, obs0 strin
 		} else {
 			st.bit = c.evalBit(ln)
 			cl := c.command(ln)
+			// Scope.SetValue on a container path is C05's domain: ok and error are not told apart
+			if f := strings.Fields(ln); len(f) >= 4 && f[0] == "inject" && strings.Contains(f[2], ".") && (cl == "ok" || cl == "error") {
+				cl = "E"
+			}
 			classes = append(classes, cl)
 			if cl == "HANG" {
 				return o0, out, strings.Join(classes, ",") + " HANG"
@@ -805,16 +812,16 @@ func c16Gen(g *Gen) {
 		}
 	}
 
-	args := c16ArgsSmall
-	if g.Thorough() {
-		args = c16Args
-	}
 	for _, scn := range c16Scenarios {
 		for _, gsGiven := range []bool{true, false} {
 			if !gsGiven && scn != "none" && scn != "top" && scn != "nest2" {
 				continue
 			}
 			errData := scn == "errmap" || scn == "errnest" || scn == "errinf"
+			args := c16ArgsSmall
+			if g.Thorough() && gsGiven && !errData {
+				args = c16Args
+			}
 			for _, cmd := range cmds {
 				g.Count("len0")
 				emit(scn, gsGiven, cmd)
@@ -853,7 +860,7 @@ func c16Gen(g *Gen) {
 	// sampled: 3..4 arguments, and commands after random histories
 	n := 1500
 	if g.Thorough() {
-		n = 40000
+		n = 30000
 	}
 	likely := func() string {
 		switch g.R.Intn(12) {
